@@ -52,3 +52,34 @@ Proof.
   intros Ha Hb. unfold negotiate, get_or_store. cbn.
   rewrite (fbs_set_extensional A A' B B' Ha Hb). reflexivity.
 Qed.
+
+(* getOrStoreHighestVersion itself (any cache state, hit or miss): result AND the cache afterwards depend on the peer's
+   list only through its set, and on the own list - when the peer lists something - only through its set *)
+Theorem gos_set_extensional own own' c node l l' :
+  same_set own own' -> same_set l l' ->
+  get_or_store own c node (PvList l) = get_or_store own' c node (PvList l').
+Proof.
+  intros Ho Hl. unfold get_or_store. destruct (c node); [reflexivity|].
+  rewrite (fbs_set_extensional own own' l l' Ho Hl). reflexivity.
+Qed.
+
+(* ... and so do whole call histories against the same peer entries, entry by entry *)
+Definition same_entry (e e' : pv_entry) : Prop :=
+  match e, e' with
+  | PvMissing, PvMissing => True
+  | PvMalformed, PvMalformed => True
+  | PvList l, PvList l' => same_set l l'
+  | _, _ => False
+  end.
+
+Theorem gos_history_set_extensional own : forall steps steps' c,
+  Forall2 (fun s s' => fst s = fst s' /\ same_entry (snd s) (snd s')) steps steps' ->
+  gos_history own c steps = gos_history own c steps'.
+Proof.
+  induction steps as [|[n e] rest IH]; intros steps' c H; inversion H as [|? [n' e'] ? ? [Hn He] Hr]; subst; [reflexivity|].
+  cbn [fst snd] in Hn, He. subst n'. cbn [gos_history].
+  assert (E : get_or_store own c n e = get_or_store own c n e').
+  { destruct e, e'; cbn in He; try contradiction; try reflexivity.
+    apply gos_set_extensional; [intros x; tauto|exact He]. }
+  rewrite E. destruct (get_or_store own c n e') as [r c']. rewrite (IH _ c' Hr). reflexivity.
+Qed.
